@@ -143,6 +143,28 @@ func checkC18(r *core.Run, p *core.Program) {
 				}
 			}
 		}
+		// shallow copies: c := *p copies the struct but shares the digit/word slices of a big number
+		shallow := map[types.Object]types.Object{}
+		ast.Inspect(f.Decl.Body, func(n ast.Node) bool {
+			as, ok := n.(*ast.AssignStmt)
+			if !ok || len(as.Lhs) != len(as.Rhs) {
+				return true
+			}
+			for i, l := range as.Lhs {
+				st, ok := stripParens(as.Rhs[i]).(*ast.StarExpr)
+				if !ok {
+					continue
+				}
+				if root := info.ObjectOf(identOf(st.X)); root != nil && tracked[root] == "big" {
+					if id, ok := l.(*ast.Ident); ok {
+						if o := info.ObjectOf(id); o != nil {
+							shallow[o] = root
+						}
+					}
+				}
+			}
+			return true
+		})
 		changed := true
 		for iter := 0; changed && iter < 4; iter++ {
 			changed = false
@@ -173,6 +195,9 @@ func checkC18(r *core.Run, p *core.Program) {
 				cal := callee(info, s)
 				if cal != nil {
 					if sel, ok := s.Fun.(*ast.SelectorExpr); ok {
+						if root, isShallow := shallow[info.ObjectOf(identOf(stripAddr(sel.X)))]; isShallow && mutatingMethod(cal) {
+							r.Fail("C18.no-mutation", f.Name()+"|shallow copy of "+root.Name()+"."+cal.Name(), s.Pos(), "`"+exprStr(sel.X)+"` is a struct copy of the caller's big number "+root.Name()+": it shares the coefficient words, so "+cal.Name()+" on the copy overwrites the caller's digits")
+						}
 						if root, kind := rootOf(sel.X); root != nil {
 							if kind == "big" && mutatingMethod(cal) {
 								r.Fail("C18.no-mutation", f.Name()+"|"+root.Name()+"."+cal.Name(), s.Pos(), "the caller's big number "+root.Name()+" is the receiver of "+cal.Name()+", which overwrites it: marshaling modifies the value being marshaled")
@@ -223,4 +248,11 @@ func checkC18(r *core.Run, p *core.Program) {
 	r.Pass("C18.no-mutation", "marshal-side functions|scanned", token.NoPos, "")
 	r.Count("C18.no-mutation functions scanned", len(funcs))
 	r.Floor("C18.no-mutation", "tracked parameters (big numbers, byte slices, reflect values)", nParams, 150)
+}
+
+func identOf(e ast.Expr) *ast.Ident {
+	if id, ok := stripParens(e).(*ast.Ident); ok {
+		return id
+	}
+	return &ast.Ident{Name: "_"}
 }
